@@ -20,9 +20,12 @@
   `hash2 (1 ‖ fpInitiator ‖ fpResponder ‖ ssid ‖ secret)` — model function `smpSecretFor`, compared
   byte for byte; that different (fp, fp, ssid) give different hashed secrets is collision resistance
   of SHA-256 (assumption). Relay scenario: Go oracle of the `smp` profile.
+  `startAuthenticate_question_nul` (repaired code): a question with a NUL byte (the peer would see it cut
+  short, and read the rest as MPIs) is refused before any SMP state is set up.
 -/
 
 import Proofs.Smp
+import Proofs.ConvLife
 namespace Otr.C11
 open Otr
 
@@ -49,5 +52,8 @@ theorem c11_equal_success_v2 : type_of% @Otr.c11_equal_success_v2 := @Otr.c11_eq
 theorem c11_equal_success_v3 : type_of% @Otr.c11_equal_success_v3 := @Otr.c11_equal_success_v3
 
 theorem c11_unequal_fail : type_of% @Otr.c11_unequal_fail := @Otr.c11_unequal_fail
+
+/-- repaired code: a question containing a NUL byte is refused, no SMP state is set up -/
+theorem startAuthenticate_question_nul : type_of% @Otr.startAuthenticate_question_nul := @Otr.startAuthenticate_question_nul
 
 end Otr.C11
